@@ -397,6 +397,7 @@ impl FatVolume {
         dir_cluster: ClusterId,
         name: ShortFileName,
         attributes: Attributes,
+        first_cluster: ClusterId,
     ) -> Result<DirEntry, Error<D::Error>>
     where
         D: BlockDevice,
@@ -439,7 +440,7 @@ impl FatVolume {
                                 let entry = DirEntry::new(
                                     name,
                                     attributes,
-                                    ClusterId::EMPTY,
+                                    first_cluster,
                                     ctime,
                                     block_idx,
                                     (i * OnDiskDirEntry::LEN) as u32,
@@ -504,7 +505,7 @@ impl FatVolume {
                                 let entry = DirEntry::new(
                                     name,
                                     attributes,
-                                    ClusterId(0),
+                                    first_cluster,
                                     ctime,
                                     block_idx,
                                     (i * OnDiskDirEntry::LEN) as u32,
@@ -1335,15 +1336,10 @@ impl FatVolume {
         D: BlockDevice,
         T: TimeSource,
     {
-        let mut new_dir_entry_in_parent =
-            self.write_new_directory_entry(block_cache, time_source, parent, sfn, att)?;
-        if new_dir_entry_in_parent.cluster == ClusterId::EMPTY {
-            new_dir_entry_in_parent.cluster = self.alloc_cluster(block_cache, None, false)?;
-            // update the parent dir with the cluster of the new dir
-            self.write_entry_to_disk(block_cache, &new_dir_entry_in_parent)?;
-        }
-        let new_dir_start_block = self.cluster_to_block(new_dir_entry_in_parent.cluster);
-        debug!("Made new dir entry {:?}", new_dir_entry_in_parent);
+        // Allocate and fill in the cluster of the new directory first, so that
+        // the parent never holds an entry for a directory that isn't there yet
+        let new_dir_cluster = self.alloc_cluster(block_cache, None, false)?;
+        let new_dir_start_block = self.cluster_to_block(new_dir_cluster);
         let now = time_source.get_timestamp();
         let fat_type = self.get_fat_type();
         // A blank block
@@ -1355,7 +1351,7 @@ impl FatVolume {
             ctime: now,
             attributes: att,
             // point at ourselves
-            cluster: new_dir_entry_in_parent.cluster,
+            cluster: new_dir_cluster,
             size: 0,
             entry_block: new_dir_start_block,
             entry_offset: 0,
@@ -1396,7 +1392,25 @@ impl FatVolume {
             block_cache.write_back()?;
         }
 
-        Ok(())
+        // Now the new directory can be linked into its parent
+        match self.write_new_directory_entry(
+            block_cache,
+            time_source,
+            parent,
+            sfn,
+            att,
+            new_dir_cluster,
+        ) {
+            Ok(new_dir_entry_in_parent) => {
+                debug!("Made new dir entry {:?}", new_dir_entry_in_parent);
+                Ok(())
+            }
+            Err(e) => {
+                // No room in the parent, so give the cluster back
+                self.free_cluster_chain(block_cache, new_dir_cluster)?;
+                Err(e)
+            }
+        }
     }
 }
 
